@@ -32,6 +32,26 @@ pub open spec fn spec_and(a: Value, b: Value) -> Option<Value> {
         _ => None,
     }
 }
+// the arithmetic/comparison helpers are deterministic functions of their operands (their values
+// are decided by the C10/C11 Kani units); the same spec function is used by `resolve` and by
+// `resolve_constant`, which is what C12 needs.
+pub uninterp spec fn spec_try_mul(a: Value, b: Value) -> Result<Value, ValueError>;
+pub uninterp spec fn spec_try_div(a: Value, b: Value) -> Result<Value, ValueError>;
+pub uninterp spec fn spec_try_add(a: Value, b: Value) -> Result<Value, ValueError>;
+pub uninterp spec fn spec_try_sub(a: Value, b: Value) -> Result<Value, ValueError>;
+pub uninterp spec fn spec_try_gt(a: Value, b: Value) -> Result<Value, ValueError>;
+pub uninterp spec fn spec_try_ge(a: Value, b: Value) -> Result<Value, ValueError>;
+pub uninterp spec fn spec_try_lt(a: Value, b: Value) -> Result<Value, ValueError>;
+pub uninterp spec fn spec_try_le(a: Value, b: Value) -> Result<Value, ValueError>;
+pub uninterp spec fn spec_try_merge(a: Value, b: Value) -> Result<Value, ValueError>;
+pub open spec fn spec_arith(op: Opcode, a: Value, b: Value) -> Result<Value, ValueError> {
+    match op {
+        Opcode::Mul => spec_try_mul(a, b),
+        Opcode::Div => spec_try_div(a, b),
+        Opcode::Add => spec_try_add(a, b),
+        _ => spec_try_sub(a, b),
+    }
+}
 pub open spec fn falsy(v: Value) -> bool { v == Value::Null || v == Value::Boolean(false) }
 
 impl Value {
@@ -42,14 +62,14 @@ impl Value {
     { unimplemented!() }
     // eager operators: results are decided by C10/C11 Kani units on the real helpers; here only
     // "no control-flow error is invented" matters.
-    #[verifier::external_body] pub fn try_mul(self, rhs: Value) -> (r: Result<Value, ValueError>) ensures r is Err ==> r->Err_0 is Other { unimplemented!() }
-    #[verifier::external_body] pub fn try_div(self, rhs: Value) -> (r: Result<Value, ValueError>) ensures r is Err ==> r->Err_0 is Other { unimplemented!() }
-    #[verifier::external_body] pub fn try_add(self, rhs: Value) -> (r: Result<Value, ValueError>) ensures r is Err ==> r->Err_0 is Other { unimplemented!() }
-    #[verifier::external_body] pub fn try_sub(self, rhs: Value) -> (r: Result<Value, ValueError>) ensures r is Err ==> r->Err_0 is Other { unimplemented!() }
-    #[verifier::external_body] pub fn try_gt(self, rhs: Value) -> (r: Result<Value, ValueError>) ensures r is Err ==> r->Err_0 is Other { unimplemented!() }
-    #[verifier::external_body] pub fn try_ge(self, rhs: Value) -> (r: Result<Value, ValueError>) ensures r is Err ==> r->Err_0 is Other { unimplemented!() }
-    #[verifier::external_body] pub fn try_lt(self, rhs: Value) -> (r: Result<Value, ValueError>) ensures r is Err ==> r->Err_0 is Other { unimplemented!() }
-    #[verifier::external_body] pub fn try_le(self, rhs: Value) -> (r: Result<Value, ValueError>) ensures r is Err ==> r->Err_0 is Other { unimplemented!() }
-    #[verifier::external_body] pub fn try_merge(self, rhs: Value) -> (r: Result<Value, ValueError>) ensures r is Err ==> r->Err_0 is Other { unimplemented!() }
+    #[verifier::external_body] pub fn try_mul(self, rhs: Value) -> (r: Result<Value, ValueError>) ensures r is Err ==> r->Err_0 is Other, r == spec_try_mul(self, rhs) { unimplemented!() }
+    #[verifier::external_body] pub fn try_div(self, rhs: Value) -> (r: Result<Value, ValueError>) ensures r is Err ==> r->Err_0 is Other, r == spec_try_div(self, rhs) { unimplemented!() }
+    #[verifier::external_body] pub fn try_add(self, rhs: Value) -> (r: Result<Value, ValueError>) ensures r is Err ==> r->Err_0 is Other, r == spec_try_add(self, rhs) { unimplemented!() }
+    #[verifier::external_body] pub fn try_sub(self, rhs: Value) -> (r: Result<Value, ValueError>) ensures r is Err ==> r->Err_0 is Other, r == spec_try_sub(self, rhs) { unimplemented!() }
+    #[verifier::external_body] pub fn try_gt(self, rhs: Value) -> (r: Result<Value, ValueError>) ensures r is Err ==> r->Err_0 is Other, r == spec_try_gt(self, rhs) { unimplemented!() }
+    #[verifier::external_body] pub fn try_ge(self, rhs: Value) -> (r: Result<Value, ValueError>) ensures r is Err ==> r->Err_0 is Other, r == spec_try_ge(self, rhs) { unimplemented!() }
+    #[verifier::external_body] pub fn try_lt(self, rhs: Value) -> (r: Result<Value, ValueError>) ensures r is Err ==> r->Err_0 is Other, r == spec_try_lt(self, rhs) { unimplemented!() }
+    #[verifier::external_body] pub fn try_le(self, rhs: Value) -> (r: Result<Value, ValueError>) ensures r is Err ==> r->Err_0 is Other, r == spec_try_le(self, rhs) { unimplemented!() }
+    #[verifier::external_body] pub fn try_merge(self, rhs: Value) -> (r: Result<Value, ValueError>) ensures r is Err ==> r->Err_0 is Other, r == spec_try_merge(self, rhs) { unimplemented!() }
     #[verifier::external_body] pub fn eq_lossy(&self, rhs: &Value) -> (r: bool) { unimplemented!() }
 }
